@@ -292,7 +292,8 @@ class IH5MFRecord(IH5Record):
         ds = IH5MFRecord._create(Path(record))
         init_stub_base(ds, user_block, skeleton)  # prepares structure and user block
         # commit_patch() completes stub + fixes the hashsum
-        ds.commit_patch(__is_stub__=True)
+        # (the stub stands in for the real record -> it also carries on the attached extensions)
+        ds.commit_patch(__is_stub__=True, manifest_exts=manifest.manifest_exts)
         assert not ds._has_writable
 
         return ds
